@@ -100,7 +100,9 @@ def encoding_provn_value(value):
     elif isinstance(value, datetime.datetime):
         return '"{0}" %% xsd:dateTime'.format(value.isoformat())
     elif isinstance(value, float):
-        return '"%g" %%%% xsd:float' % value
+        # the shortest text that reads back as exactly this value; a Python
+        # float is an xsd:double (as in the PROV-JSON and PROV-XML writers)
+        return '"%r" %%%% xsd:double' % value
     elif isinstance(value, bool):
         return '"%i" %%%% xsd:boolean' % value
     else:
